@@ -462,6 +462,20 @@ def judgeLine (st : St) (l : String) : Except Verdict St := do
     if outs != [.snapshot bytes] then .error (.mismatch "snapshot inside a batch: model differs")
     runModel st ((pts.drop k).map .bp ++ [.endB])
   | ["join"] => return st
+  | ["proc", reqPat, respPat, n, k, stall] =>
+    -- the real UDFProcess, closed cleanly while the consumer of Out() stalls after k messages: n points
+    -- P|cpu|db|rp|!|0|host=a|v=i<i>|<i> were fed; everything the echoing process wrote back must come out
+    let some n := n.toNat? | .error (.badop l)
+    let mut st := st
+    if reqPat != "!" || respPat != "!" then st := { st with chunked := true }
+    for i in List.range n do
+      let some p := parseInPoint s!"P|cpu|db|rp|!|0|host=a|v=i{i + 1}|{i + 1}" | .error (.badop l)
+      st := { st with sent := st.sent.push (.point p) }
+      st ← runModel st [.point p]
+    st := addBr st "process-closed-while-consumer-stalled"
+    if (k.toNat?.getD 0) < n && (stall.toNat?.getD 0) ≥ 1000 then st := addBr st "process-exit-before-output-consumed"
+    if n ≥ 2 then st := { st with nontrivial := true }
+    judgeOut st obs l
   | "task" :: kind :: _ => return addBr st ("task-" ++ kind)
   | "wp" :: _ => return st
   | ["run"] =>
